@@ -495,6 +495,31 @@ class WorldGen:
         self.sess(lines, 2, 1, sid, cache="keep")
         return {"kind": "partial", "lines": lines}
 
+    def bigseg(self):
+        """ONE responder-side segment with more than 2 x COMMAND_RESPONSE_MAX commands still to send (split over 3+
+        responses, every resume point but the first lies inside the segment).  `feed` adds all commands in one
+        transaction.  Poll budget = the bound of theorem session_terminates: ceil(total / 100) + 1."""
+        r = self.r
+        lines = ["world 4", "init 0 %d 8" % self.nn()]
+        sid = r.range(1, 1000)
+        nb = r.choice([1, 2, 5])
+        self.acts(lines, 0, nb, prio=0)
+        self.sess(lines, 1, 0, sid, cache="keep")                 # client 1: the common base only
+        aligned = r.chance(1, 2)
+        if aligned:
+            lines.append("feed 2 0")                              # the base gets its own segment: the big one is requested from its first command
+        n = r.range(250, 320)
+        self.acts(lines, 0, n, prio=0, pad=r.choice([0, 0, 7]))
+        lines.append("feed 2 0")                                  # otherwise the requester's head lies inside the big segment
+        polls = lambda total: (total + 99) // 100 + 1
+        sid += 1
+        self.sess(lines, 1, 2, sid, cache="fresh", maxpolls=polls(n))
+        sid += 1
+        self.sess(lines, 3, 2, sid, cache="fresh", maxpolls=polls(n + nb + 1))   # an empty requester: the whole graph
+        sid += 1
+        self.sess(lines, 1, 2, sid, cache="keep", maxpolls=polls(0))             # nothing left: a single end message
+        return {"kind": "bigseg", "lines": lines}
+
     def overflow(self):
         """Commands above MAX_COMMAND_LENGTH: a response that exceeds MAX_SYNC_MESSAGE_SIZE."""
         r = self.r
@@ -529,6 +554,8 @@ def add_bufs(rng, case, pass1):
             L = a["len"]
             hdr = a["msg"]["hdr"] if a.get("msg") and a["msg"].get("kind") == "resp" else L
             ch = rng.below(10)
+            if case["kind"] == "bigseg":
+                ch = rng.choice([5, 5, 6, 7, 3])        # buffers at and just below the exact fit
             if ch <= 2:
                 slots.append([])
             elif ch == 3:
